@@ -4,7 +4,8 @@ import itertools
 from fractions import Fraction
 
 from ..core import (AnalysisError, access_path, const, find_all, match, short,
-                    src, walk_no_nested, parent, call_name)
+                    src, walk_no_nested, parent, call_name,
+                    merge_scalar_subscripts)
 from ..cfg import cfg_of
 from .. import util as U
 from ..poly import Rat, Poly, from_ast, NotPolynomial
@@ -80,6 +81,11 @@ def r1(ctx):
         if pat:
             mode = 'stmt' if '=' in pat else 'expr'
             h = find_all(pat, fi.node, mode)
+            if not h and pat == 'min_dz.append(min(dz))':
+                # the minimum held in a local that is appended right away
+                h = [(n, b) for n, b in find_all('min_dz.append(Q_x)',
+                                                 fi.node, 'expr')
+                     if _s(U.temp_def(fi.node, b['Q_x'])) == 'min(dz)']
             ctx.require(len(h) >= 1, 'C04.R1', fi, h[0][0] if h else fi.node,
                         'the requirement of %s must be the minimum over its '
                         'candidates' % q, key='%s | %s' % (fi.full, pat))
@@ -88,7 +94,7 @@ def r1(ctx):
         fi = repo.func(modn, q)
         rets = [r for r in walk_no_nested(fi.node) if isinstance(r, ast.Return)]
         ok = len(rets) == 1 and isinstance(rets[0].value, ast.Tuple) and \
-            _s(rets[0].value.elts[0]) == 'min(min_dz)'
+            _s(U.temp_def(fi.node, rets[0].value.elts[0])) == 'min(min_dz)'
         ctx.require(ok, 'C04.R1', fi, rets[0] if rets else fi.node,
                     'region requirement = min over both temperatures (and '
                     'bypass)', key=fi.full + ' | min over temperatures')
@@ -871,13 +877,15 @@ def r6(ctx):
                  and not any(isinstance(a_, ast.Call) and 'update_ebal' in
                              src(a_.func) for a_ in C01._anc(n))]
         want = {' '.join(p.split()) for p in pats}
+        # T[i][j] with a scalar loop index i is the element T[i, j]
+        text = {id(d): _s(merge_scalar_subscripts(d)) for d in diffs}
         for d in diffs:
-            ctx.require(_s(d) in want, 'C04.R6', fi, d,
+            ctx.require(text[id(d)] in want, 'C04.R6', fi, d,
                         'temperature difference with the cell\'s own '
                         'temperature as minuend (or an unrecognised '
                         'orientation): a negative neighbour weight',
-                        key='%s | %s' % (fi.full, _s(d)[:70]))
-        seen = {_s(d) for d in diffs}
+                        key='%s | %s' % (fi.full, text[id(d)][:70]))
+        seen = set(text.values())
         for p in sorted(want - seen):
             if 'duct_mw' in p and 'byp' not in q and not any(
                     'duct_mw' in x for x in seen):
